@@ -136,4 +136,6 @@ func (v VerifChannel) InstanceObjs() map[uint32][]any {
 func (v VerifChannel) ResetReceiveSequence() { v.S.rcvSequenceNumberSet = false }
 
 // ReceiveSequence returns the sequence number of the chunk accepted last and whether there was one.
-func (v VerifChannel) ReceiveSequence() (uint32, bool) { return v.S.rcvSequenceNumber, v.S.rcvSequenceNumberSet }
+func (v VerifChannel) ReceiveSequence() (uint32, bool) {
+	return v.S.rcvSequenceNumber, v.S.rcvSequenceNumberSet
+}
